@@ -47,6 +47,9 @@ HELP = [
     ('getitem', lambda e, y: rx(SEQ)[e], lambda v, w: SEQ[v]),
     ('method', lambda e, y: e.bit_length(), lambda v, w: v.bit_length()),
     ('len_map', lambda e, y: rx(SEQ).rx.map(lambda i, k: i + k, e).rx.len(), lambda v, w: len([i + v for i in SEQ])),
+    # the unselected branch of where() is a reactive expression that raises on the current inputs: it must not be evaluated
+    ('where_lazy', lambda e, y: (e != 0).rx.where(100 // e, -7), lambda v, w: (100 // v) if v != 0 else -7),
+    ('where_lazy2', lambda e, y: (e == 0).rx.where(-7, rx(SEQ)[e + 10]), lambda v, w: -7 if v == 0 else SEQ[v + 10]),
 ]
 N1 = 2 * len(BIN) + len(UN) + len(HELP)
 
@@ -76,7 +79,7 @@ def _node(op):
     return n, False, b, p
 
 
-NONLIN = {'mul', 'truediv', 'floordiv', 'mod', 'pow', 'lshift', 'rshift', 'divmod', 'and', 'or', 'xor', 'invert', 'round',
+NONLIN = {'where_lazy', 'where_lazy2', 'mul', 'truediv', 'floordiv', 'mod', 'pow', 'lshift', 'rshift', 'divmod', 'and', 'or', 'xor', 'invert', 'round',
           'trunc', 'floor', 'ceil', 'getitem', 'method', 'len_map', 'abs'}
 
 
@@ -167,7 +170,7 @@ def prog(op1: int, xk: int, op2: int, yk: int, k: int, vr: int, watch: bool, a0:
                 check('C09.exception_same', got == exp, dict(inf, got=repr(got), exp=repr(exp)))
                 read_exc = True
         else:                 # derive e2 from e1 (first time) and read it
-            assume(n1 != 'where')         # .rx.where returns a bound function: operators cannot be applied to it
+            assume(not n1.startswith('where'))         # .rx.where returns a bound function: operators cannot be applied to it
             if e2 is None:
                 Y, yval = operand(yk if yk != 3 else 0)
                 pe = _ev(lambda: plain2(f1(), yval()))
@@ -234,7 +237,7 @@ def shards(tier):
                     out.append(dict(name='B_%d_%d_x%dy%d' % (op1, op2, xk, yk), module='harness.c09', fn='prog', consts=c,
                                     budget_s=45 if q else 300))
     # (C) error and recovery through a non-root operand: histories of length 4 over {set parameter, read e1}
-    for op1 in [3, 4, 5, len(BIN) + 3, len(BIN) + 7, 2 * len(BIN) + len(UN) + 9]:    # truediv floordiv mod rtruediv rlshift getitem
+    for op1 in [3, 4, 5, len(BIN) + 3, len(BIN) + 7, 2 * len(BIN) + len(UN) + 9, N1 - 2, N1 - 1]:    # truediv floordiv mod rtruediv rlshift getitem where_lazy*
         for xk in (1, 2):
             c = dict(op1=op1, xk=xk, op2=0, yk=0, k=4, vr=1 if q else 2, watch=(xk == 2), h1r=(1, 2), h2r=(1, 2), h3r=(1, 2), h4r=(2, 2), a0=1, c=2)
             out.append(dict(name='C_op%d_x%d' % (op1, xk), module='harness.c09', fn='prog', consts=c, budget_s=45 if q else 300))
